@@ -229,6 +229,7 @@ func runC11(c *vk.Ctx) {
 					nw++
 				}
 				hits := 0
+				handle := "the writing handle"
 				check := func(a c11addr, got []byte, how string) {
 					owner, ok := valueOwner[string(got)]
 					if !ok || addrs[owner] == a {
@@ -251,30 +252,42 @@ func runC11(c *vk.Ctx) {
 						return
 					}
 					reported[sig] = true
-					c.Violate(sig, fmt.Sprintf("%s: %s %s the record written under %s (isolated probe: %q)", backend, a, how+"s", o, confirmed), key,
-						map[string]interface{}{"backend": backend, "address_read": a.String(), "address_written": o.String(), "mechanism": mech})
+					c.Violate(sig, fmt.Sprintf("%s: %s %s the record written under %s (through %s; isolated probe: %q)", backend, a, how+"s", o, handle, confirmed), key,
+						map[string]interface{}{"backend": backend, "read_through": handle, "address_read": a.String(), "address_written": o.String(), "mechanism": mech})
 				}
-				for i, a := range addrs {
-					c11Select(s, a)
-					var got []byte
-					var gerr error
-					pv, stack := vk.Guard(func() { got, gerr = s.Get(ctx, []byte(a.Key)) })
-					c.Count("store_operations", 1)
-					if pv != nil {
-						c.Violate(backend+":"+vk.PanicSig(pv, stack), fmt.Sprintf("Get %s panics: %v", a, pv), key, nil)
-						continue
-					}
-					if gerr != nil {
-						if written[i] {
-							c.Count("written_address_unreadable(not this property)", 1)
+				// every address is read twice: through the handle as it wrote, and again after every data type has been
+				// locked on it (a read-only view: what db/dbtest does after each write and a deployment does before it
+				// hands a store to a reader); what a session can see must not depend on the locks
+				for pass := 0; pass < 2; pass++ {
+					if pass == 1 {
+						for _, t := range c11Types {
+							s.SetLock(t, true)
 						}
-						continue
+						c.Count("read_passes_through_a_locked_handle", 1)
+						handle = "the same handle with every data type locked"
 					}
-					how := "read"
-					if written[i] {
-						how = "returns-value-overwritten-by"
+					for i, a := range addrs {
+						c11Select(s, a)
+						var got []byte
+						var gerr error
+						pv, stack := vk.Guard(func() { got, gerr = s.Get(ctx, []byte(a.Key)) })
+						c.Count("store_operations", 1)
+						if pv != nil {
+							c.Violate(backend+":"+vk.PanicSig(pv, stack), fmt.Sprintf("Get %s panics: %v", a, pv), key, nil)
+							continue
+						}
+						if gerr != nil {
+							if written[i] {
+								c.Count("written_address_unreadable(not this property)", 1)
+							}
+							continue
+						}
+						how := "read"
+						if written[i] {
+							how = "returns-value-overwritten-by"
+						}
+						check(a, got, how)
 					}
-					check(a, got, how)
 				}
 				// listings (fs): per sessioned context, nothing of another address's session/type
 				if backend == "fs" || backend == "fsbin" {
